@@ -264,9 +264,15 @@ def run_property(pid, tier, seed):
         json.dump(rec, open(path, 'w'), indent=1, default=str)
         entry = {'what': oid, 'replay': path, 'confirmed': bool(confirmed), 'detail': ob.meta.get('detail')}
         k = next((f for f in kf if finding_matches(f, pid, obligation=oid)), None)
+        stricter = any(match_any(ob.meta.get('clause', ''), [p]) or match_any(oid, [p]) for p in getattr(P, 'STRICTER_THAN_STATEMENT', []))
         if is_candidate and not confirmed:
             res.undecided.append(f"{oid}: solver answered unknown; a model of the quantifier-free part exists but was not "
                                  f"confirmed on the real code (see {path})")
+        elif stricter and not confirmed:
+            # a refinement clause demands more than the statement (e.g. "operation for operation the reference recurrence"):
+            # losing it without any failing input is not a violation of the property - the verdict is undecided
+            res.undecided.append(f"{oid}: the refinement clause no longer holds (it is stricter than the statement) and no failing "
+                                 f"input was found on the real code by the bounded stand-in (see {path})")
         elif k:
             res.known.append((k, entry))
         else:
@@ -280,6 +286,11 @@ def run_property(pid, tier, seed):
                 found = None
             if found is not None:
                 witness, observed, confirmed = found['witness'], found['observed'], True
+        if not confirmed and bounded_failures:
+            w0, p0 = bounded_failures[0]
+            witness = {'corroborated_by_bounded_failure': w0.get('key'), 'summary': w0.get('summary'), 'replay': p0}
+            observed = {'confirmed': True, 'what': w0.get('summary')}
+            confirmed = True
         path = os.path.join(OUT, 'replays', f"{pid}-{slug(x['id'])}.json")
         json.dump({'property': pid, 'obligation': x['id'], 'function': x.get('function'), 'detail': x.get('detail'),
                    'solver': {'status': 'fails', 'backend': 'effect analysis (AST)'}, 'witness': witness, 'observed': observed,
@@ -289,6 +300,11 @@ def run_property(pid, tier, seed):
         k = next((f for f in kf if finding_matches(f, pid, obligation=x['id'])), None)
         if k:
             res.known.append((k, entry))
+        elif not confirmed:
+            # the effect contract is syntactic and stricter than the statement (e.g. a private generator that is re-created from
+            # the global one on every call would still be reproducible): without a failing replay the verdict is undecided
+            res.undecided.append(f"{x['id']}: the effect contract no longer holds ({x.get('detail')}) but no replay on the real code "
+                                 f"differed (see {path})")
         else:
             res.violations.append(entry)
     if n_obl == 0:
